@@ -8,7 +8,9 @@ import texref
 
 POW2 = [8, 16, 32, 64, 128]
 COLOR_FORMATS = [0, 2, 3, 4, 5, 7, 8]
-MODEL_MAX_PIXELS = 2048          # textures above this go to the oracle-only streams
+MODEL_MAX_PIXELS = 8192          # textures above this go to the oracle-only streams (the list-based extracted model is quadratic:
+                                 # 128x64 takes 1.5 s, 128x128 10 s); the thorough tier also runs one round of 128x128 through the model
+PAL_MODEL_MAX_PIXELS = 4096      # every palette image of the property's domain (1..64 x 1..64) is model-compared
 
 
 def hx(b):
@@ -83,13 +85,18 @@ class C19(PropertyCheck):
         thorough = tier == "thorough"
         cases = []
 
-        def color(fmt, w, h, payload, stream):
-            kind = "color" if w * h <= MODEL_MAX_PIXELS else "bigcolor"
+        def color(fmt, w, h, payload, stream, limit=MODEL_MAX_PIXELS):
+            kind = "color" if w * h <= limit else "bigcolor"
             cases.append(Case("c19 %s %d %d %d %s" % (kind, fmt, w, h, hx(payload)), stream))
 
-        def etc(alpha, w, h, payload, stream):
-            kind = "etc" if w * h <= MODEL_MAX_PIXELS else "bigetc"
+        def etc(alpha, w, h, payload, stream, limit=MODEL_MAX_PIXELS, ctpk=None):
+            """ETC1 / ETC1A4 through mila::decode; with ctpk (default: one case in three) also through a single-texture CTPK"""
+            kind = "etc" if w * h <= limit else "bigetc"
             cases.append(Case("c19 %s %d %d %d %s" % (kind, 1 if alpha else 0, w, h, hx(payload)), stream))
+            if ctpk is None:
+                ctpk = rng.randrange(3) == 0
+            if ctpk:
+                color(13 if alpha else 12, w, h, payload, stream + "-ctpk", limit)
 
         # 1. every value of the 16-bit and 8-bit formats
         for fmt in (2, 3, 4, 5):
@@ -108,14 +115,15 @@ class C19(PropertyCheck):
 
         # 2. all 25 sizes x all listed formats, random payloads
         reps = 1 if not thorough else 8
-        for _ in range(reps):
+        for rep_no in range(reps):
+            limit = (16384 if rep_no == 0 else MODEL_MAX_PIXELS) if thorough else 4096
             for w in POW2:
                 for h in POW2:
                     for fmt in COLOR_FORMATS:
-                        color(fmt, w, h, rand_bytes(rng, texref.payload_size(fmt, w, h)), "sizes-random")
+                        color(fmt, w, h, rand_bytes(rng, texref.payload_size(fmt, w, h)), "sizes-random", limit)
                     for alpha in (False, True):
                         n = texref.payload_size(13 if alpha else 12, w, h)
-                        etc(alpha, w, h, rand_bytes(rng, n), "sizes-random-etc")
+                        etc(alpha, w, h, rand_bytes(rng, n), "sizes-random-etc", limit, ctpk=True)
         # extra small random textures for the model correspondence
         for _ in range(60 if not thorough else 1500):
             w, h = rng.choice([8, 16, 32]), rng.choice([8, 16, 32])
@@ -139,6 +147,13 @@ class C19(PropertyCheck):
                                 rgb1 = [rng.randrange(16) for _ in range(3)]
                                 rgb2 = [rng.randrange(16) for _ in range(3)]
                             blocks.append((etc_word(diff, flip, t1, t2, rgb1, rgb2, msb, lsb), rng.getrandbits(64)))
+        # every modifier-table entry with both signs where nothing clamps (base 0x44 + m <= 255, base 0xBB - m >= 0):
+        # each table as table 1 and as table 2, both orientations, all four constant selector fills
+        for t in range(8):
+            for flip in (0, 1):
+                for (msb, lsb) in ((0, 0), (0, 0xFFFF), (0xFFFF, 0), (0xFFFF, 0xFFFF)):
+                    base = 0xB if msb else 0x4
+                    blocks.append((etc_word(0, flip, t, (t + 3) % 8, [base] * 3, [base] * 3, msb, lsb), rng.getrandbits(64)))
         # every pixel position x every index value
         for pos in range(16):
             for idx in range(4):
@@ -197,7 +212,7 @@ class C19(PropertyCheck):
             ncol = rng.choice([256, 256, 16, 200])
             img = bytes(rng.randrange(ncol) for _ in range(n))
             pal = b"".join(struct.pack(">H", rng.getrandbits(16)) for _ in range(ncol))
-            kind = "pal" if w * h <= MODEL_MAX_PIXELS else "bigpal"
+            kind = "pal" if w * h <= PAL_MODEL_MAX_PIXELS else "bigpal"
             cases.append(Case("c19 %s %d %d %s %s" % (kind, w, h, hx(img), hx(pal)), "palette-images"))
         for _ in range(20 if not thorough else 200):
             n = rng.randrange(0, 200)
@@ -214,8 +229,9 @@ class C19(PropertyCheck):
             for alpha in (False, True):
                 tiles = lambda d: 1 if d <= 8 else 1 << (((d + 7) // 8).bit_length() - 1)
                 n = tiles(w) * tiles(h) * 4 * (16 if alpha else 8)
-                etc(alpha, w, h, rand_bytes(rng, n), "edge-odd-size")
-                etc(alpha, w, h, rand_bytes(rng, max(0, n - 3)), "edge-short-payload")
+                # (not through a CTPK: ctpk::read cuts the payload by its own size formula first - that is C20's subject)
+                etc(alpha, w, h, rand_bytes(rng, n), "edge-odd-size", ctpk=False)
+                etc(alpha, w, h, rand_bytes(rng, max(0, n - 3)), "edge-short-payload", ctpk=False)
         for fmt in (14, 15, 255):
             color(fmt, 8, 8, b"", "edge-unknown-format")
         cases.append(Case("c19 rgb5a3 %s" % hx(b"\x12\x34\x56"), "edge-odd-size"))
@@ -238,6 +254,8 @@ class C19(PropertyCheck):
             payload = unhx(toks[5])
             if fmt in texref.FORMATS and is_pow2_ge8(w) and is_pow2_ge8(h) and len(payload) == texref.payload_size(fmt, w, h):
                 return ("color", fmt, w, h, payload)
+            if fmt in (12, 13) and is_pow2_ge8(w) and is_pow2_ge8(h) and len(payload) == texref.payload_size(fmt, w, h):
+                return ("etc", fmt == 13, w, h, payload)      # ETC1 / ETC1A4 through the CTPK path
         elif k in ("etc", "bigetc"):
             alpha, w, h = toks[2] == "1", int(toks[3]), int(toks[4])
             payload = unhx(toks[5])
